@@ -46,6 +46,8 @@ template <class T> bool run_extreme (bool thorough)
     });
     publish (total, "extreme.");
     vf::R ().add ("extreme_cases_outside_domain(t underflows)", total.excluded);
+    vf::R ().cls ("extreme.t-underflows-on-non-binding-axis(judged)", total.nbu);
+    vf::R ().cls ("extreme.t-underflows.exact-hit(one-sided truth check)", total.uhit);
     vf::R ().cls ("extreme.some-t-exceeds-max(overflow guard regime)", total.overflow);
     vf::R ().cls ("extreme.every-t-exceeds-max", total.alloverflow);
     vf::R ().note_max (std::string ("worst extreme-alphabet point error / (eps*M + denorm_min), ") + tname<T> (), total.worst);
